@@ -47,9 +47,9 @@ C15OK(rec) ==
        /\ ToSt(rec.post) = Empty
 VARIABLE i
 Judge(rec) ==
-    /\ (Level # 2 \/ C15OK(rec) \/ PrintT(<<"L2FAIL", "C15", rec.id>>))
-    /\ (Level # 2 \/ C07OK(rec) \/ PrintT(<<"L2FAIL", "C07", rec.id>>))
-    /\ (Level # 1 \/ StepOK(rec) \/ PrintT(<<"L1DRIFT", "heap", rec.id>>))
+    /\ (IF Level # 2 \/ C15OK(rec) THEN TRUE ELSE PrintT(<<"L2FAIL", "C15", rec.id>>))
+    /\ (IF Level # 2 \/ C07OK(rec) THEN TRUE ELSE PrintT(<<"L2FAIL", "C07", rec.id>>))
+    /\ (IF Level # 1 \/ StepOK(rec) THEN TRUE ELSE PrintT(<<"L1DRIFT", "heap", rec.id>>))
 TInit == i = 1
 TNext == i < Len(Recs) /\ i' = i + 1 /\ Judge(Recs[i + 1])
 TSpec == TInit /\ [][TNext]_i
